@@ -353,9 +353,15 @@ def run_entry(args):
     for cs in cellsets:
         total *= len(cs)
     # keep the cross product tractable in the quick tier: thin the interior cells of non-ordered arguments
-    if tier == "quick" and total > 4000:
+    cap = 4000 if tier == "quick" else 30000
+    for _round in range(3):
+        total = 1
+        for cs in cellsets:
+            total *= len(cs)
+        if total <= cap:
+            break
         for k, (name, kind) in enumerate(entry["args"]):
-            if name not in ordered and len(cellsets[k]) > 9:
+            if (name not in ordered or _round > 0) and len(cellsets[k]) > 9:
                 keep = [c for c in cellsets[k] if c.lo is None or c.point or c.name.startswith("(-inf") or c.name.endswith("inf)") or c.zero]
                 rest = [c for c in cellsets[k] if c not in keep]
                 cellsets[k] = keep + rest[::2]
@@ -394,8 +400,9 @@ def run_entry(args):
             res["unspecified"] += 1
             continue
         if not (real & exp):
-            res["violations"].append({"case": cname, "kind": "verdict", "outs": sorted(real), "allowed": sorted(exp),
-                                      "what": "returns %s, the documentation allows only %s" % ("/".join(sorted(real)), "/".join(sorted(exp)))})
+            tag = entry["tag"](case, bits) if entry.get("tag") else ""
+            res["violations"].append({"case": cname, "kind": "verdict", "outs": sorted(real), "allowed": sorted(exp), "tag": tag,
+                                      "what": "returns %s, the documentation allows only %s%s" % ("/".join(sorted(real)), "/".join(sorted(exp)), " [%s]" % tag if tag else "")})
             continue
         if len(real) == 1 and not imprecise:
             res["decided"] += 1
@@ -488,12 +495,12 @@ def run(chk, F, tier):
         seen_v = set()
         for v in r["violations"]:
             # one report per distinct (kind, outcome): the first failing case is the witness, the count is reported
-            sig = (v["kind"], tuple(v.get("outs", ())), tuple(v.get("allowed", ())), v.get("site"))
+            sig = (v["kind"], tuple(v.get("outs", ())), tuple(v.get("allowed", ())), v.get("site"), v.get("tag", ""))
             if sig in seen_v:
                 continue
             seen_v.add(sig)
-            same = [w for w in r["violations"] if (w["kind"], tuple(w.get("outs", ())), tuple(w.get("allowed", ())), w.get("site")) == sig]
-            vkey = "%s|%s|%s" % (r["path"], v["kind"], "/".join(v.get("outs", [])))
+            same = [w for w in r["violations"] if (w["kind"], tuple(w.get("outs", ())), tuple(w.get("allowed", ())), w.get("site"), w.get("tag", "")) == sig]
+            vkey = "%s|%s|%s" % (r["path"], v["kind"], "/".join(v.get("outs", []))) + ("|" + v["tag"] if v.get("tag") else "")
             chk.violation("verdict", vkey, "%s (f%d) with %s %s  [%d case(s) of this kind, e.g. %s]" % (
                 r["path"], r["bits"], v["case"], v["what"], len(same), "; ".join(w["case"] for w in same[1:3]) or "-"), where=v.get("where"))
         for u in r["undecided"][:20]:
